@@ -32,10 +32,11 @@ use crate::zonetree::StoredName;
 use crate::zonetree::types::{
     InMemoryZoneDiff, InMemoryZoneDiffBuilder, ZoneCut,
 };
+use crate::zonetree::walk::WalkState;
 use crate::zonetree::{Rrset, SharedRr};
 use crate::zonetree::{SharedRrset, WritableZone, WritableZoneNode};
 
-use super::nodes::{NodeRrsets, Special, ZoneApex, ZoneNode};
+use super::nodes::{NodeChildren, NodeRrsets, Special, ZoneApex, ZoneNode};
 use super::versioned::{Version, VersionMarker};
 
 //------------ WriteZone -----------------------------------------------------
@@ -582,6 +583,24 @@ impl WriteNode {
     }
 
     fn remove_all(&self) -> Result<(), io::Error> {
+        if let Some((owner, diff)) = &self.diff {
+            // Every RRset at or below this node that exists in the published
+            // version of the zone is about to be removed, and nothing that
+            // was added there so far will be part of the new version.
+            let (rrsets, children) = match self.node {
+                Either::Left(ref apex) => (apex.rrsets(), apex.children()),
+                Either::Right(ref node) => (node.rrsets(), node.children()),
+            };
+            diff.lock().unwrap().clear_added_below(owner);
+            Self::record_removal_of_all(
+                owner,
+                rrsets,
+                children,
+                self.zone.last_published_version(),
+                diff,
+            );
+        }
+
         match self.node {
             Either::Left(ref apex) => {
                 apex.remove_all(self.zone.new_version);
@@ -592,6 +611,39 @@ impl WriteNode {
         }
 
         Ok(())
+    }
+
+    /// Records in the diff the removal of all RRsets that the given version
+    /// of the zone has at the given node and below it.
+    fn record_removal_of_all(
+        owner: &StoredName,
+        rrsets: &NodeRrsets,
+        children: &NodeChildren,
+        version: Version,
+        diff: &Mutex<InMemoryZoneDiffBuilder>,
+    ) {
+        for (rtype, rrset) in rrsets.iter().iter() {
+            if let Some(rrset) = rrset.get(version) {
+                diff.lock().unwrap().remove(
+                    owner.clone(),
+                    *rtype,
+                    rrset.clone(),
+                );
+            }
+        }
+
+        children.walk(WalkState::DISABLED, |_, (label, node)| {
+            let mut builder = NameBuilder::new_bytes();
+            builder.append_label(label.as_slice()).unwrap();
+            let child_owner = builder.append_origin(owner).unwrap();
+            Self::record_removal_of_all(
+                &child_owner,
+                node.rrsets(),
+                node.children(),
+                version,
+                diff,
+            );
+        });
     }
 
     /// Makes sure a NXDomain special is set or removed as necesssary.
